@@ -362,5 +362,5 @@ CheckAndPrint ==
     /\ (Instances[i].laws => Laws(Instances[i], rr))
     /\ PrintT("@@EXP " \o ToJson([i |-> i, nan |-> RunNaN(rr),
           e |-> [means |-> rr.means, covs |-> rr.covs, scale2 |-> rr.scale2, sm_means |-> rr.sm_means, sm_covs |-> rr.sm_covs,
-                 terms |-> rr.terms, sing |-> rr.sing, zscale |-> rr.zscale]])))
+                 sing |-> rr.sing, zscale |-> rr.zscale]])))
 =============================================================================
